@@ -231,10 +231,18 @@ def run(chk):
         def imm_cases():
             for iname in ins:
                 o = stix2.parse(copy.deepcopy(ins[iname]), allow_custom=True)
-                for k in list(o)[:6] + ['new_public_name']: yield (iname, o, k)
+                for k in list(o)[:6] + ['new_public_name']: yield (iname, o, k, False)
+                # the same after the object has been read in every way (attribute and item access, iteration, serialization, str/repr, copy, hash of the id):
+                # what is refused on a fresh object is refused on a used one
+                o2 = stix2.parse(copy.deepcopy(ins[iname]), allow_custom=True)
+                for k in list(o2)[:6] + ['new_public_name']: yield (iname + ' (after reads)', o2, k, True)
 
         def imm_check(case):
-            iname, o, k = case
+            iname, o, k, used = case
+            if used:
+                for n in list(o):
+                    getattr(o, n, None); o.get(n); o[n]
+                o.serialize(); str(o); repr(o); copy.copy(o); dict(o); len(o); getattr(o, 'no_such_property', None)
             for what, fn, ok_exc in (('assignment', lambda: setattr(o, k, 'changed'), (stix2.exceptions.ImmutableError,)), ('attribute deletion', lambda: delattr(o, k), (AttributeError, stix2.exceptions.ImmutableError)),
                                      ('item assignment', lambda: o.__setitem__(k, 1), (TypeError, AttributeError)), ('item deletion', lambda: o.__delitem__(k), (TypeError, AttributeError))):
                 before = o.serialize()
@@ -244,7 +252,7 @@ def run(chk):
                 except Exception as ex:
                     if o.serialize() != before: return (f'immutable#{what} refused', f'{iname}: {what} of {k!r} raised {type(ex).__name__} but changed the object', {})
                 if o.serialize() != before: return (f'immutable#{what} refused', f'{iname}: {what} of {k!r} changed the object', {})
-        chk.bounded('assignment and deletion refused', list(imm_cases()), imm_check, classify=lambda c: (c[0], c[2]), bound='4 objects x 7 names x {setattr, delattr, item assignment, item deletion}')
+        chk.bounded('assignment and deletion refused', list(imm_cases()), imm_check, classify=lambda c: (c[0], c[2]), bound='4 objects x 7 names x {setattr, delattr, item assignment, item deletion}, on a fresh object and on one that has been read in every way')
 
         def dc_cases():
             for iname in ins: yield (iname, stix2.parse(copy.deepcopy(ins[iname]), allow_custom=True))
